@@ -194,6 +194,175 @@ def run_driver(cases_path, out_path):
     return p.returncode
 
 
+def diff_model(out_dir, tag=""):
+    """Runs the driver on out_dir/cases.txt and diffs with out_dir/impl.txt.
+    Returns (lines_compared, n_differ, first disagreements)."""
+    cases = os.path.join(out_dir, "cases.txt")
+    if not os.path.exists(cases) or os.path.getsize(cases) == 0:
+        return 0, 0, []
+    run_driver(cases, os.path.join(out_dir, "model.txt"))
+    impl = open(os.path.join(out_dir, "impl.txt")).read().splitlines()
+    model = open(os.path.join(out_dir, "model.txt")).read().splitlines()
+    case_lines = open(cases).read().splitlines()
+    ids = open(os.path.join(out_dir, "case_ids.txt")).read().splitlines()
+    dis = []
+    if len(model) != len(impl):
+        dis.append({"case_id": tag, "case": "", "impl": f"{len(impl)} lines", "model": f"{len(model)} lines"})
+    n = 0
+    for i, (a, b) in enumerate(zip(impl, model)):
+        if a != b:
+            n += 1
+            if len(dis) < 50:
+                dis.append({"case_id": (tag + ":" if tag else "") + (ids[i] if i < len(ids) else ""), "case": case_lines[i], "impl": a, "model": b})
+    return min(len(impl), len(model)), n, dis
+
+
+def feature_matrix(prop, spec, tier, seed, log_dir, only=None):
+    """Generic per-property hook (`"feature_matrix"` in tools/props/Cxx.json):
+    {"sets": [[...features...], ...], "dump_cmd": "<harness sub-command writing dump.txt>"}.
+    Builds the harness once per feature set (separate target dirs, in parallel), runs the
+    property's harness + driver diff for every non-default set and the dump command for all sets
+    (default features included); the dumps must be identical.
+    Returns (failures, disagreements, info, problem)."""
+    import threading
+    sets = [[]] + [list(x) for x in spec.get("sets", [])]
+    builds = {}
+
+    def build(feats):
+        builds[",".join(feats)] = cargo_build("release", features=feats or None)
+
+    threads = [threading.Thread(target=build, args=(f,)) for f in sets]
+    for t in threads:
+        t.start()
+    for t in threads:
+        t.join()
+    failures, disagreements = [], []
+    info = {"builds": [], "dump_lines": 0, "dumps_identical": None}
+    dumps = {}
+    for feats in sets:
+        name = ",".join(feats)
+        label = name or "default"
+        ok, clog, binpath = builds[name]
+        if not ok:
+            return failures, disagreements, info, f"harness does not build with features [{name}]: " + clog[-500:]
+        out_dir = os.path.join(log_dir, "features-" + (label.replace(",", "+")))
+        os.makedirs(out_dir, exist_ok=True)
+        entry = {"features": label}
+        if feats:
+            cmd = [binpath, prop, tier, str(seed), out_dir] + ([only] if only else [])
+            try:
+                rc, out, err = sh(cmd, cwd=VERIF, timeout=3000)
+            except Exception as e:
+                rc, out, err = 124, "", str(e)
+            if rc != 0:
+                return failures, disagreements, info, f"harness [{name}] exited with {rc}: {(out + err)[-300:]}"
+            for f in read_jsonl(os.path.join(out_dir, "failures.jsonl")):
+                f["case_id"] = label + ":" + f.get("case_id", "")
+                failures.append(f)
+            n, nd, dis = diff_model(out_dir, label)
+            disagreements += dis
+            entry.update({"model_vs_impl_lines": n, "differ": nd})
+        dump_cmd = spec.get("dump_cmd")
+        if dump_cmd and not only:
+            try:
+                rc, out, err = sh([binpath, dump_cmd, tier, str(seed), out_dir], cwd=VERIF, timeout=3000)
+            except Exception as e:
+                rc, out, err = 124, "", str(e)
+            if rc != 0:
+                return failures, disagreements, info, f"dump [{name}] exited with {rc}: {(out + err)[-300:]}"
+            dumps[label] = open(os.path.join(out_dir, "dump.txt")).read().splitlines()
+            entry["dump_lines"] = len(dumps[label])
+        info["builds"].append(entry)
+    if dumps:
+        base = dumps["default"]
+        info["dump_lines"] = len(base)
+        info["dumps_identical"] = True
+        # per-case notes written next to the dumps (any build) classify known differences:
+        # spec["known_diff_classes"] = [{"note": <note>, "class": <known-finding class>}]
+        notes = {}
+        for feats in sets:
+            label = ",".join(feats) or "default"
+            np_ = os.path.join(log_dir, "features-" + label.replace(",", "+"), "dump-notes.txt")
+            if os.path.exists(np_):
+                for line in open(np_):
+                    parts = line.split()
+                    if len(parts) >= 2:
+                        notes.setdefault(parts[0], set()).update(parts[1:])
+        note_class = {k["note"]: k["class"] for k in spec.get("known_diff_classes", [])}
+        for label, lines in dumps.items():
+            if lines == base:
+                continue
+            info["dumps_identical"] = False
+            n_lines = max(len(base), len(lines))
+            reported = set()
+            info.setdefault("differing_cases", {})[label] = 0
+            for i in range(n_lines):
+                a = base[i] if i < len(base) else "<missing>"
+                b = lines[i] if i < len(lines) else "<missing>"
+                if a == b:
+                    continue
+                cid = (a if a != "<missing>" else b).split(" ")[0]
+                if cid in reported:
+                    continue
+                reported.add(cid)
+                info["differing_cases"][label] += 1
+                cls = next((note_class[n] for n in sorted(notes.get(cid, ())) if n in note_class), "")
+                failures.append({
+                    "kind": "oracle:feature-build-differs", "class": cls, "case_id": f"{label}:{cid}",
+                    "detail": f"default build: `{a[:260]}` vs [{label}] build: `{b[:260]}` (dump line {i + 1})",
+                    "repro": f"rosu_verif {dump_cmd} {tier} {seed} <dir> built with --features {label}; compare dump.txt with the default build (case {cid})",
+                })
+    return failures, disagreements, info, None
+
+
+def extra_cmds(cmds, tier, log_dir):
+    """Generic per-property hook (`"extra_cmds"`): shell commands run from /verif; a non-zero exit
+    (or a missing `expect` substring) is an oracle failure of kind `kind` / class `class_on_fail`.
+    Entry: {"name", "tiers": [...], "cmd": [...], "cwd"?, "env"?, "timeout"?, "expect"?, "kind"?,
+            "class_on_fail"?, "failures_jsonl"?}; `{LOG}`, `{BUILD}`, `{VERIF}` are substituted in
+    `cmd` and `failures_jsonl`; records of the latter file (kind/class/case_id/detail/repro) are
+    added to the run's oracle failures."""
+    failures, info = [], []
+    for c in cmds:
+        if tier not in c.get("tiers", ["quick", "thorough"]):
+            continue
+        env = dict(ENV)
+        env.update(c.get("env", {}))
+        cwd = os.path.join(VERIF, c.get("cwd", ""))
+        sub = lambda x: x.replace("{BUILD}", BUILD).replace("{VERIF}", VERIF).replace("{LOG}", log_dir)  # noqa: E731
+        cmd = [sub(x) for x in c["cmd"]]
+        fj = sub(c["failures_jsonl"]) if c.get("failures_jsonl") else None
+        if fj and os.path.exists(fj):
+            os.remove(fj)
+        t0 = time.time()
+        try:
+            rc, out, err = sh(cmd, cwd=cwd, timeout=c.get("timeout", 1200), env=env)
+        except Exception as e:
+            rc, out, err = 124, "", f"timeout/exception: {e}"
+        text = out + err
+        open(os.path.join(log_dir, f"extra-{c['name']}.log"), "w").write(text)
+        ok = rc == 0 and (c.get("expect", "") in text)
+        entry = {"name": c["name"], "ok": ok, "exit": rc, "wall_s": round(time.time() - t0, 1)}
+        if fj and os.path.exists(fj):
+            recs = read_jsonl(fj)
+            failures += recs
+            entry["failure_records"] = len(recs)
+            entry["summary"] = [l for l in text.splitlines() if l.strip()][-1:][0][:600] if text.strip() else ""
+        info.append(entry)
+        if not ok:
+            tail = [l for l in text.splitlines() if l.strip()][-12:]
+            failures.append({"kind": c.get("kind", "oracle:extra-cmd"), "class": c.get("class_on_fail", ""),
+                             "case_id": c["name"], "detail": f"exit {rc}: " + " | ".join(tail)[-700:],
+                             "repro": " ".join(f"{k}={v}" for k, v in c.get("env", {}).items()) + " " + " ".join(cmd) + f"  (cwd {cwd})"})
+    return failures, info
+
+
+def run_driver(cases_path, out_path):
+    with open(cases_path) as fin, open(out_path, "w") as fout:
+        p = subprocess.run([DRIVER], stdin=fin, stdout=fout, stderr=subprocess.PIPE, timeout=3000)
+    return p.returncode
+
+
 def _num(tok):
     """Fraction for `123`, `-1.5e3`, `7/2`; None when the token is not a finite number."""
     from fractions import Fraction
